@@ -570,6 +570,126 @@ def o_integrand_semantics(spec, meth, dim, arg, seed, int_input=False):
     return None
 
 
+def model_marginal_cdf_1d(model, x):
+    """marginal cdf of variable 1 of a 2-D model by 1-D quadrature over the model's CURRENT per-dimension methods
+    (no nquad, no Monte-Carlo): integral of f0(t) F1(x | t) dt"""
+    d0, d1 = model.distributions
+    lo, med, hi = (float(d0.icdf(q)) for q in (1e-10, 0.5, 1 - 1e-10))
+    return quad1(lambda t: float(d0.pdf(t)) * float(np.ravel(d1.cdf(np.array([x]), given=np.array([t])))[0]), lo, hi, pts=[med])
+
+
+def apply_spec(model, spec):
+    """change the parameters of a built model IN PLACE to those of `spec` (same families / dependence function forms)"""
+    for dist, d in zip(model.distributions, spec["dims"]):
+        if d["cond"] is None:
+            for k, v in d["params"].items():
+                setattr(dist, k, v[1])
+        else:
+            for k, v in d["params"].items():
+                if v[0] == "fix":
+                    dist.fixed_parameters[k] = v[1]
+                    setattr(dist.distribution, k, v[1])
+                    setattr(dist.distribution, "f_" + k, v[1])
+                else:
+                    dep = dist.conditional_parameters[k]
+                    for name, c in zip(list(dep.parameters), v[2]):
+                        dep.parameters[name] = c
+
+
+def history_specs(rng):
+    """two clearly different 2-D models of the same form (variable 1 conditional on variable 0)"""
+    u = rng.uniform
+    a = {"dims": [{"fam": "W", "cond": None, "params": {"alpha": ["val", u(1.5, 2.5)], "beta": ["val", u(1.3, 2.0)], "gamma": ["val", 0.0]}},
+                  {"fam": "LN", "cond": 0, "params": {"mu": ["dep", "lin", [u(0.8, 1.2), u(0.15, 0.25)]], "sigma": ["fix", u(0.25, 0.4)]}}]}
+    b = {"dims": [{"fam": "W", "cond": None, "params": {"alpha": ["val", u(5.0, 7.0)], "beta": ["val", u(2.2, 3.0)], "gamma": ["val", 0.0]}},
+                  {"fam": "LN", "cond": 0, "params": {"mu": ["dep", "lin", [u(2.3, 2.8), u(0.08, 0.12)]], "sigma": ["fix", a["dims"][1]["params"]["sigma"][1]]}}]}
+    return a, b
+
+
+def spec_sample(spec, n, seed):
+    """a data set following `spec` (independent formulas, inverse Rosenblatt of uniforms)"""
+    g = np.random.default_rng(seed)
+    cols = []
+    for d in spec["dims"]:
+        given = None if d["cond"] is None else cols[d["cond"]]
+        cols.append(np.asarray(M.dim_method(d, "ppf", g.uniform(1e-9, 1 - 1e-9, n), given), dtype=float))
+    return np.column_stack(cols)
+
+
+def o_history(spec_a, spec_b, mode, seed):
+    """marginal_icdf of a conditional variable describes the model AS IT IS NOW: query, change the model (parameters in
+    place, or a re-fit to clearly different data), query again; each answer x_p must satisfy F(x_p) = p for the marginal
+    cdf of the model at that time (1-D quadrature, DKW band of the Monte-Carlo sample at 1e-12)."""
+    ps = [0.1, 0.5, 0.9]
+    eps = math.sqrt(math.log(2 / 1e-12) / (2 * 100000))
+    model = M.build_model(spec_a)
+    steps = [("initial model", None), ("after the change", spec_b), ("after changing back", spec_a)]
+    np.random.seed(seed)
+    for label, sp in steps:
+        if sp is not None:
+            if mode == "fit":
+                model.fit(spec_sample(sp, 4000, seed + 1))
+            else:
+                apply_spec(model, sp)
+        elif mode == "fit":
+            model.fit(spec_sample(spec_a, 4000, seed + 2))
+        xs = np.atleast_1d(model.marginal_icdf(ps, 1))
+        for p_, x in zip(ps, xs):
+            F = model_marginal_cdf_1d(model, float(x))
+            if abs(F - p_) > 3 * eps + 1e-3:
+                return ({"clause": "marginal-icdf", "kind": "history", "mode": mode},
+                        "history (%s by %s): marginal_icdf(%r, 1) = %r %s, but the marginal cdf of the model at that time is %r there "
+                        "(DKW band %.4f): the answer does not describe the current model" % (
+                            "model changed", "re-fitting" if mode == "fit" else "setting parameters", p_, float(x), label, F, eps))
+    return None
+
+
+def o_rows_each_alone(spec, meth, dim, vals, seed):
+    """a call with k >= 3 points in a non-sorted order, one of them repeated, returns -- same length, same order -- what
+    the points give when evaluated alone (nquad replaced by the probing stub, whose value depends on the point only)"""
+    import random
+    jm = _jm()
+    model = M.build_model(spec)
+    dlog, plog = instrument(model)
+    stub = NquadStub(random.Random(seed), plog)
+    saved = jm.integrate
+    jm.integrate = stub
+    try:
+        if meth == "cdf":
+            together = run_method(model, "cdf", np.array(vals, dtype=float))
+            alone = [run_method(model, "cdf", [list(v)]) for v in vals]
+        else:
+            together = run_method(model, meth, np.array(vals, dtype=float), dim)
+            alone = [run_method(model, meth, np.array([v], dtype=float), dim) for v in vals]
+    finally:
+        jm.integrate = saved
+    if any(isinstance(a, dict) for a in alone):
+        return None
+    want = [a[0] for a in alone]
+    if isinstance(together, dict) or len(together) != len(want) or any(not vlib.close(g, w, rel=1e-12) for g, w in zip(together, want)):
+        return ({"clause": "rows-independent", "method": meth},
+                "%s(%r%s) = %r, but the points evaluated one at a time give %r (nquad stubbed: its value depends on the point only)" % (
+                    meth, vals, "" if meth == "cdf" else ", %d" % dim, together, want))
+    return None
+
+
+def shrink_rows(fn, vals):
+    """drop points while the oracle still fails with the same clause"""
+    base = fn(vals)
+    if not base:
+        return vals, base
+    cur = list(vals)
+    i = 0
+    while i < len(cur) and len(cur) > 1:
+        cand = cur[:i] + cur[i + 1:]
+        o = fn(cand)
+        if o and o[0] == base[0]:
+            cur, base = cand, o
+        else:
+            i += 1
+    return cur, base
+
+
 def simple_2d_spec():
     """the smallest interesting model (used to restate a dtype finding on a minimal input)"""
     return {"dims": [{"fam": "W", "cond": None, "params": {"alpha": ["val", 2.0], "beta": ["val", 1.5], "gamma": ["val", 0.0]}},
@@ -587,6 +707,10 @@ def replay(ctx, rp):
         o = o_int_marginal(spec, rp["dim"], rp["xs"], rp["method"])
     elif kind == "integrand":
         o = o_integrand_semantics(spec, rp["method"], rp["dim"], rp["arg"], rp["seed"], rp.get("int_input", False))
+    elif kind == "history":
+        o = o_history(rp["spec"], rp["spec_b"], rp["mode"], rp["seed"])
+    elif kind == "rows":
+        o = o_rows_each_alone(spec, rp["method"], rp["dim"], rp["vals"], rp["seed"])
     elif kind == "integrals_2d":
         o = o_integrals_2d(spec, rp["row"])
     elif kind == "mass_2d":
@@ -745,6 +869,39 @@ def run(ctx):
                 report(o_integrand_semantics(sp, meth, dim, arg, seed, True),
                        {"oracle": "integrand", "spec": sp, "method": meth, "dim": dim, "arg": arg, "seed": seed, "int_input": True})
     ctx.cov["evaluations"] += nsem
+    # (2c) several points in one call: non-sorted order, a repeated point -- same as one at a time
+    nrows = 0
+    for sp in specs[:ctx.n(60, 600)]:
+        n = len(sp["dims"])
+        rows = sorted(make_rows(rng, sp, 4))
+        if len({tuple(r) for r in rows}) < 4:
+            continue
+        rows = [rows[1], rows[2], rows[3], rows[0], rows[2]]          # cyclic order of the sorted rows + a repeat
+        seed = rng.randrange(2 ** 31)
+        nrows += 1
+        vals, o = shrink_rows(lambda v: o_rows_each_alone(sp, "cdf", None, v, seed), rows)
+        report(o, {"oracle": "rows", "spec": sp, "method": "cdf", "dim": None, "vals": vals, "seed": seed})
+        for dim in range(n):
+            for meth in ("marginal_pdf", "marginal_cdf"):
+                xs = [r[dim] for r in rows]
+                nrows += 1
+                vals, o = shrink_rows(lambda v: o_rows_each_alone(sp, meth, dim, v, seed), xs)
+                report(o, {"oracle": "rows", "spec": sp, "method": meth, "dim": dim, "vals": vals, "seed": seed})
+    ctx.cov["evaluations"] += nrows
+    # (2d) histories: marginal_icdf of a conditional variable before / after the model is changed (in place, by re-fitting)
+    nhist = 0
+    for k in range(ctx.n(2, 12)):
+        sa, sb = history_specs(rng)
+        for mode in ("params", "fit"):
+            seed = rng.randrange(2 ** 31)
+            nhist += 1
+            try:
+                o = o_history(sa, sb, mode, seed)
+            except Exception as e:  # noqa  (a fit that does not converge is not judged)
+                o = "slow" if mode == "fit" else ({"clause": "marginal-icdf", "kind": "exception"},
+                                                  "marginal_icdf history raised %s: %s" % (type(e).__name__, str(e)[:200]))
+            report(o, {"oracle": "history", "spec": sa, "spec_b": sb, "mode": mode, "seed": seed})
+    ctx.cov["evaluations"] += nhist
     # minimal restatement of the dtype clause (the documented example shape: model.pdf([3, 7]))
     s0 = simple_2d_spec()
     report(o_int_pdf(s0, [[3.0, 7.0]]), {"oracle": "int_pdf", "spec": s0, "rows": [[3.0, 7.0]]})
@@ -779,7 +936,7 @@ def run(ctx):
         o, worst = o_icdf_2d(ctx, sp, seed)
         worst_icdf = worst if worst_icdf is None else max(worst_icdf, worst or 0)
         report(o, {"oracle": "icdf_2d", "spec": sp, "seed": seed})
-    ctx.notes["search"] = {"product_oracle_models": nprod, "int_vs_float_models": nint, "integrand_semantics_calls": nsem, "real_nquad_2d_models": nquad_checked, "real_nquad_skipped_for_time": skipped, "unjudged_slow_or_saturated_nquad_calls": unjudged["slow_nquad"],
+    ctx.notes["search"] = {"product_oracle_models": nprod, "int_vs_float_models": nint, "integrand_semantics_calls": nsem, "multi_point_calls_vs_one_at_a_time": nrows, "marginal_icdf_histories": nhist, "real_nquad_2d_models": nquad_checked, "real_nquad_skipped_for_time": skipped, "unjudged_slow_or_saturated_nquad_calls": unjudged["slow_nquad"],
                            "marginal_icdf_worst_|F(x_p)-p|": worst_icdf,
                            "3-D real nquad": "not run (one call takes minutes); 3-D/4-D integrands are checked through the probing stub"}
     ctx.cov["rule"] = ("random 2-D/3-D (a few 4-D) hierarchical models over Weibull / log-normal / log-normal(norm-fit) / exponentiated Weibull / "
